@@ -16,7 +16,7 @@ Mechanisms: {'; '.join(m['name'] + ' (' + m['where'] + ')' for m in p['anchors']
 Task:
 1. Read the anchored code in {wt}. Make a small, realistic change to NON-test source files (the kind of slip a refactoring or an "optimisation" could introduce) that makes the property false for some inputs/schedules/histories, while the code still compiles and the existing unit tests of the affected packages still pass.
 2. The break must need something specific to manifest — a particular interleaving, a fault or crash at a particular point, a multi-step sequence of operations, an unusual input or configuration, or two cooperating sites that each look fine alone — NOT something that ordinary use or the existing tests expose at once. Prefer a change whose trigger condition is narrow but realistic.
-3. Write a demonstration: a new Go test file (name it *_seed_test.go, in the most suitable package; or a tiny main program) that FAILS with your change and PASSES without it. Verify both directions yourself (e.g. `git stash` the source change, run, `git stash pop`, run).
+3. Write a demonstration: a new Go test file (name it *_seed_test.go, in the most suitable package; or a tiny main program) that FAILS with your change and PASSES without it. Verify both directions yourself (save your source change with `git diff -- <files> > /tmp/seed-{pid}-src.diff`, revert it with `git apply -R`, run, re-apply with `git apply`, run; do NOT use `git stash`: the stash is shared between all worktrees of the repository and other engineers work in parallel).
 4. Run the existing tests of every package you touched and of their obvious dependants; they must pass with your change (timing-sensitive tests may flake because the machine is heavily loaded — if a test fails, re-run it alone and also check whether it fails the same way WITHOUT your change before concluding anything).
 Go environment (no network; nothing can be downloaded): run every go command as
   cd {wt} && GOFLAGS=-mod=mod GOPROXY=off go test -count=1 ./path/to/pkg/...
